@@ -3,6 +3,8 @@
 -/
 import GraphiqModel.Model.Solver
 import GraphiqModel.Model.Check
+import GraphiqModel.Model.Convert
+import GraphiqModel.Proofs.AltTargetConvDefs
 import Driver.Proto
 import Driver.CmdStab
 namespace Graphiq.CmdSolver
@@ -15,6 +17,8 @@ def tokC : COp → String
   | .wrap gs q => s!"W:{String.intercalate "." (gs.map Cliff.Gen.name)}:{regName q}"
   | .cnot c t => s!"CX:{regName c}:{regName t}"
   | .mcr c t r => s!"MCR:{regName c}:{regName t}:c{r}"
+  | .gate1 g q => s!"{match g with | .I => "I" | .H => "H" | .P => "P" | .X => "X" | .Y => "Y" | .Z => "Z"}:{regName q}"
+  | .pdag q => s!"PD:{regName q}"
   | _ => "?"
 
 /-! ### branch tags of a run (driver-side instrumentation; the model functions themselves are called unchanged)
@@ -141,12 +145,28 @@ def helperAbsorb (a : Args) : String :=
   | .error e => s!"err {e}"
   | .ok s => s!"ok {showSt s}"
 
+/-- solver.altentry n= lc=<bits> iso=<bits>: one entry of `AlternateTargetSolver.solve` as modelled by `C10.modelParts`: the solver model on the
+    LC graph, then (unless the two graphs are equal) `str_to_op` of the gates of `lc_check(lc, iso, validate=True)` -/
+def altEntry (a : Args) : String :=
+  let n := getNat a "n"
+  let lc := BMat.ofRows n n (rowsOf n (get a "lc"))
+  let iso := BMat.ofRows n n (rowsOf n (get a "iso"))
+  match solve (graphSTab n (Alt.cutAdj n lc.f)) with
+  | .error e => s!"err {e}"
+  | .ok s =>
+    match Alt.convModel lc iso with
+    | none => "err warning"
+    | some gops =>
+      let toks := (if lc.beq iso then s.cops else s.cops ++ gops).map tokC
+      s!"ok ne={s.ne} ops={if toks.isEmpty then "-" else String.intercalate "," toks}"
+
 def dispatch (cmd : String) (a : Args) : Option String :=
   match cmd with
   | "solver.trs" => some (trs a)
   | "solver.tags" => some (tags a)
   | "solver.trm" => some (helperTrm a)
   | "solver.absorb" => some (helperAbsorb a)
+  | "solver.altentry" => some (altEntry a)
   | _ => none
 
 end Graphiq.CmdSolver
